@@ -175,6 +175,9 @@ func TestVerifC01Core(t *testing.T) {
 			}
 			out.Op(res, "req", sp.kind)
 		}
+		// ---- sys/raw: which storage access does storageByPath select? (EnableRaw is on) --------------------------
+		c01RawSection(t, ctx, out, rng, core, inm, root, round)
+
 		// key material: term keys and root key never in clear in any physical value
 		res := vh.Catch(func() string {
 			kr, err := core.barrier.Keyring()
@@ -220,5 +223,221 @@ func TestVerifC01Core(t *testing.T) {
 			return "clean:term" + strconv.Itoa(int(kr.ActiveTerm()))
 		})
 		out.Op(res, "rotatescan")
+	}
+}
+
+// c01RawSection drives sys/raw write/read/delete/list over generated keys and observes, independently of
+// storageByPath, whether the request was served by the unencrypted direct physical access or by a barrier:
+//   write: the canary is in clear in the physical value at the key (direct) / it is not, and core.barrier.Get returns
+//          it (barrier);  read: a plaintext planted straight into the physical backend comes back as is (direct) /
+//          is refused because it is not a barrier record (barrier).
+// Predicate: direct access (plaintext written / unauthenticated bytes served) only under the exact fixed bootstrap
+// keys core/seal-config and core/recovery-config.
+func c01RawSection(t *testing.T, ctx context.Context, out *vh.Out, rng *vh.Rand, core *Core, inm physical.Backend, root string, round int) {
+	const rootUUID = namespace.RootNamespaceUUID
+	// a live child namespace (cheap: one request)
+	childUUID := ""
+	if resp, err := core.HandleRequest(ctx, &logical.Request{Operation: logical.UpdateOperation, Path: "sys/namespaces/c01ns" + strconv.Itoa(round),
+		ClientToken: root, Data: map[string]any{}}); err == nil && resp != nil && !resp.IsError() {
+		if u, ok := resp.Data["uuid"].(string); ok {
+			childUUID = u
+		}
+	}
+	known := "-"
+	if childUUID != "" {
+		known = vh.HexS(childUUID)
+	}
+	fixed := map[string]bool{barrierSealConfigPath: true, recoverySealConfigPath: true}
+	rnd := func() string { return strconv.FormatUint(rng.U64(), 36) }
+	bases := []string{barrierSealConfigPath, recoverySealConfigPath}
+	keys := []string{}
+	for _, b := range bases {
+		keys = append(keys, b, b+".bak", b+"-old/shares", b+"-backup", b+"/", b+"/x/"+rnd(), b+rnd(), b[:len(b)-1], "x"+b,
+			strings.ToUpper(b[:1])+b[1:], b+" ", "/"+b)
+	}
+	keys = append(keys,
+		"core/keyring", "core/keyringX", "core/keyring/sub", "core/cluster/local/info", "core/cluster/local/info2", "core/cluster/local",
+		"core/c01-"+rnd(), "core/c01/"+rnd()+"/deep", "core/seal", "core/recovery",
+		"logical/c01/"+rnd(), "sys/c01-"+rnd(), "c01-"+rnd(), "c01/dir/"+rnd(),
+		"namespaces/"+rootUUID+"/"+barrierSealConfigPath, "namespaces/"+rootUUID+"/"+recoverySealConfigPath,
+		"namespaces/"+rootUUID+"/"+barrierSealConfigPath+".bak", "namespaces/"+rootUUID+"/c01-"+rnd(),
+		"namespaces/"+rootUUID+"/core/keyring",
+		"namespaces/c01-unknown-"+rnd()+"/"+barrierSealConfigPath, "namespaces/c01-unknown-"+rnd()+"/c01/"+rnd(),
+		"namespaces/c01-noslash-"+rnd(), "namespaces/"+rootUUID, "namespacesX/"+rootUUID+"/"+barrierSealConfigPath,
+	)
+	if childUUID != "" {
+		keys = append(keys, "namespaces/"+childUUID+"/"+barrierSealConfigPath, "namespaces/"+childUUID+"/"+barrierSealConfigPath+".bak",
+			"namespaces/"+childUUID+"/c01/"+rnd(), "namespaces/"+childUUID+"/core/keyring")
+	}
+	// shuffle (the order must not matter; every key is restored after use)
+	for i := len(keys) - 1; i > 0; i-- {
+		j := rng.Intn(i + 1)
+		keys[i], keys[j] = keys[j], keys[i]
+	}
+	// errors reach the client as opaque "internal error"/"invalid request": one class
+	errClass := func(resp *logical.Response, err error) string {
+		if err != nil || (resp != nil && resp.IsError()) {
+			return "refused"
+		}
+		return ""
+	}
+	rb := NewRawBackend(core)
+	// is k of the form namespaces/<uuid>/<fixed key>? (the UUID alias of finding F-rawalias)
+	alias := func(k string) bool {
+		rest, ok := strings.CutPrefix(k, "namespaces/")
+		if !ok {
+			return false
+		}
+		_, rest, ok = strings.Cut(rest, "/")
+		return ok && fixed[rest]
+	}
+	sigOf := func(k, generic string) string {
+		if alias(k) {
+			return "raw-direct-via-namespace-uuid-alias"
+		}
+		return generic
+	}
+	physRaw := func(k string) []byte {
+		e, err := inm.Get(ctx, k)
+		if err != nil || e == nil {
+			return nil
+		}
+		return e.Value
+	}
+	for _, k := range keys {
+		saved := physRaw(k) // restore afterwards: the exact bootstrap keys hold the live seal configuration
+		restore := func() {
+			if saved != nil {
+				_ = core.physical.Put(ctx, &physical.Entry{Key: k, Value: append([]byte{}, saved...)})
+			} else {
+				_ = core.physical.Delete(ctx, k)
+			}
+		}
+		outside := !fixed[k]
+
+		// the real storageByPath, called directly
+		res0 := vh.Catch(func() string {
+			st, allow, err := rb.storageByPath(ctx, k)
+			if err != nil {
+				if strings.Contains(err.Error(), "cannot access") {
+					return "denied"
+				}
+				return "err:" + strings.ReplaceAll(err.Error(), "\t", " ")
+			}
+			switch st.(type) {
+			case *directStorageAccess:
+				r := "direct:" + strconv.FormatBool(allow)
+				if outside {
+					r += "!VIOL:storageByPath selects the direct physical access for " + strconv.Quote(k) +
+						", which is not one of the fixed bootstrap keys#" + sigOf(k, "raw-direct-selected-outside-fixed-set")
+				}
+				return r
+			case *secureStorageAccess:
+				return "barrier:" + strconv.FormatBool(allow)
+			}
+			return "other"
+		})
+		out.Op(res0, "raw", "sel", vh.HexS(k), known)
+		if strings.HasSuffix(k, "/") || strings.HasPrefix(k, "/") {
+			continue // the framework refuses writes to paths ending in '/'; a leading '/' is normalised by the router
+		}
+
+		// write
+		canary := "c" + rnd() + "~w~" + rnd() + rnd() // never starts with a compressutil canary byte
+		res := vh.Catch(func() string {
+			resp, err := core.HandleRequest(ctx, &logical.Request{Operation: logical.UpdateOperation, Path: "sys/raw/" + k, ClientToken: root,
+				Data: map[string]any{"value": canary}})
+			if c := errClass(resp, err); c != "" {
+				return c
+			}
+			sel := "other"
+			pv := physRaw(k)
+			switch {
+			case bytes.Contains(pv, []byte(canary)):
+				sel = "direct"
+			case pv != nil:
+				if e, err := core.barrier.Get(ctx, k); err == nil && e != nil && bytes.Equal(e.Value, []byte(canary)) {
+					sel = "barrier"
+				}
+			}
+			rt := "bad"
+			if resp, err := core.HandleRequest(ctx, &logical.Request{Operation: logical.ReadOperation, Path: "sys/raw/" + k, ClientToken: root,
+				Data: map[string]any{"compressed": false}}); err == nil && resp != nil && !resp.IsError() {
+				if v, ok := resp.Data["value"].(string); ok && v == canary {
+					rt = "ok"
+				}
+			}
+			r := sel + ":" + rt
+			if sel == "direct" && outside {
+				r += "!VIOL:sys/raw wrote the value in clear to the physical backend under " + strconv.Quote(k) +
+					", which is not one of the fixed bootstrap keys#" + sigOf(k, "raw-write-plaintext-outside-fixed-set")
+			}
+			return r
+		})
+		out.Op(res, "raw", "write", vh.HexS(k), known)
+
+		// list of the parent directory
+		res = vh.Catch(func() string {
+			dir := ""
+			base := k
+			if i := strings.LastIndex(strings.TrimSuffix(k, "/"), "/"); i >= 0 {
+				dir, base = k[:i], k[i+1:]
+			}
+			resp, err := core.HandleRequest(ctx, &logical.Request{Operation: logical.ListOperation, Path: "sys/raw/" + dir, ClientToken: root})
+			if c := errClass(resp, err); c != "" {
+				return c
+			}
+			_ = base
+			return "listed"
+		})
+		dir := ""
+		if i := strings.LastIndex(strings.TrimSuffix(k, "/"), "/"); i >= 0 {
+			dir = k[:i]
+		}
+		if dir != "" {
+			out.Op(res, "raw", "list", vh.HexS(dir), known)
+		}
+
+		// read of bytes planted straight into the physical backend (never through a barrier)
+		planted := "PLANTED-" + rnd() + "-not-a-barrier-record-" + rnd()
+		res = vh.Catch(func() string {
+			// never overwrite the live keyring / cluster info, even for a moment (these paths are refused anyway)
+			if !strings.Contains(k, "core/keyring") && !strings.Contains(k, "core/cluster/local/info") {
+				if err := core.physical.Put(ctx, &physical.Entry{Key: k, Value: []byte(planted)}); err != nil {
+					return "err:plant"
+				}
+			}
+			resp, err := core.HandleRequest(ctx, &logical.Request{Operation: logical.ReadOperation, Path: "sys/raw/" + k, ClientToken: root,
+				Data: map[string]any{"compressed": false}})
+			if c := errClass(resp, err); c != "" {
+				return c // protected path, or a barrier refused the planted bytes (not an authentic record)
+			}
+			if resp != nil {
+				if v, ok := resp.Data["value"].(string); ok && v == planted {
+					r := "direct"
+					if outside {
+						r += "!VIOL:sys/raw served unauthenticated physical bytes under " + strconv.Quote(k) +
+							", which is not one of the fixed bootstrap keys#" + sigOf(k, "raw-read-unauthenticated-outside-fixed-set")
+					}
+					return r
+				}
+			}
+			return "other"
+		})
+		out.Op(res, "raw", "read", vh.HexS(k), known)
+
+		// delete
+		res = vh.Catch(func() string {
+			resp, err := core.HandleRequest(ctx, &logical.Request{Operation: logical.DeleteOperation, Path: "sys/raw/" + k, ClientToken: root})
+			if c := errClass(resp, err); c != "" {
+				return c
+			}
+			if physRaw(k) != nil {
+				return "still-there"
+			}
+			return "done"
+		})
+		out.Op(res, "raw", "delete", vh.HexS(k), known)
+		restore()
 	}
 }
